@@ -98,4 +98,409 @@ theorem onData_repeat (s : St) (f : FaceId) (d : Data) : (onData (onData s f d).
       rw [this] at hr
       simp at hr
 
+/-! ### the invariant of reachable states -/
+
+/-- PIT tokens are unique and below the allocation counter; an entry holds at most one in-record per
+    face (the Go map key) -/
+structure WF (s : St) : Prop where
+  tokLt : ∀ e ∈ s.pit, e.token < s.nextTok
+  tokNodup : (s.pit.map (·.token)).Nodup
+  inNodup : ∀ e ∈ s.pit, (e.inRecs.map (·.face)).Nodup
+
+theorem wf_init (s : St) (h : s.pit = []) : WF s := by
+  constructor <;> simp [h]
+
+/-- a state whose PIT is the old one mapped by a token-preserving function -/
+theorem wf_map {s s' : St} (h : WF s) (g : Entry → Entry) (hp : s'.pit = s.pit.map g) (hn : s.nextTok ≤ s'.nextTok)
+    (ht : ∀ e, (g e).token = e.token) (hi : ∀ e ∈ s.pit, ((g e).inRecs.map (·.face)).Nodup) : WF s' := by
+  constructor
+  · intro e he
+    rw [hp, List.mem_map] at he
+    obtain ⟨x, hx, rfl⟩ := he
+    rw [ht]
+    exact Nat.lt_of_lt_of_le (h.tokLt x hx) hn
+  · rw [hp, List.map_map]
+    have : ((fun x => x.token) ∘ g) = fun x => x.token := by funext x; simp [ht]
+    rw [this]
+    exact h.tokNodup
+  · intro e he
+    rw [hp, List.mem_map] at he
+    obtain ⟨x, hx, rfl⟩ := he
+    exact hi x hx
+
+theorem wf_frame {s s' : St} (h : WF s) (hp : s'.pit = s.pit) (hn : s'.nextTok = s.nextTok) : WF s' := by
+  constructor
+  · rw [hp, hn]; exact h.tokLt
+  · rw [hp]; exact h.tokNodup
+  · rw [hp]; exact h.inNodup
+
+theorem modifyEntry_eq_map (pit : List Entry) (tok : Nat) (g : Entry → Entry) :
+    modifyEntry pit tok g = pit.map (fun e => if e.token == tok then g e else e) := rfl
+
+/-- modifyEntry with a token-preserving function keeps the invariant when in-record faces stay distinct -/
+theorem wf_modify {s s' : St} (h : WF s) (tok : Nat) (g : Entry → Entry) (hp : s'.pit = modifyEntry s.pit tok g)
+    (hn : s.nextTok ≤ s'.nextTok) (ht : ∀ e, (g e).token = e.token)
+    (hi : ∀ e ∈ s.pit, e.token = tok → ((g e).inRecs.map (·.face)).Nodup) : WF s' := by
+  apply wf_map h (fun e => if e.token == tok then g e else e) hp hn
+  · intro e; split <;> simp [ht]
+  · intro e he
+    split
+    · rename_i heq; exact hi e he (by simpa using heq)
+    · exact h.inNodup e he
+
+theorem wf_map' {s : St} (h : WF s) (g : Entry → Entry)
+    (ht : ∀ e, (g e).token = e.token) (hi : ∀ e ∈ s.pit, ((g e).inRecs.map (·.face)).Nodup) :
+    WF { s with pit := s.pit.map g } := wf_map h g rfl (Nat.le_refl _) ht hi
+
+theorem wf_modify' {s : St} (h : WF s) (tok : Nat) (g : Entry → Entry) (ht : ∀ e, (g e).token = e.token)
+    (hi : ∀ e ∈ s.pit, e.token = tok → ((g e).inRecs.map (·.face)).Nodup) :
+    WF { s with pit := modifyEntry s.pit tok g } := wf_modify h tok g rfl (Nat.le_refl _) ht hi
+
+/-! #### removal of an entry (slice swap) -/
+
+theorem mem_removeEntry {pit : List Entry} {tok : Nat} {x : Entry} (h : x ∈ removeEntry pit tok) : x ∈ pit := by
+  unfold removeEntry at h
+  split at h
+  · exact h
+  · rename_i e he
+    split at h
+    · exact h
+    · rename_i l hl
+      have hlmem : l ∈ pit := by
+        have := List.mem_of_getLast? hl
+        exact (List.mem_filter.mp this).1
+      split at h
+      · exact (List.mem_filter.mp h).1
+      · rw [List.mem_map] at h
+        obtain ⟨y, hy, rfl⟩ := h
+        split
+        · exact hlmem
+        · exact (List.mem_filter.mp hy).1
+
+theorem nodup_map_token_swap (t : List Entry) (l : Entry) (a : Nat)
+    (hnd : (t.map (·.token)).Nodup) (hb : l.token ∉ t.map (·.token)) :
+    ((t.map fun x => if x.token == a then l else x).map (·.token)).Nodup ∧
+    ∀ k, k ∈ (t.map fun x => if x.token == a then l else x).map (·.token) → k = l.token ∨ k ∈ t.map (·.token) := by
+  induction t with
+  | nil => simp
+  | cons x r ih =>
+    simp only [List.map_cons, List.nodup_cons, List.mem_cons, not_or] at hnd hb
+    obtain ⟨ih1, ih2⟩ := ih hnd.2 hb.2
+    constructor
+    · simp only [List.map_cons, List.nodup_cons]
+      refine ⟨?_, ih1⟩
+      intro hmem
+      rcases ih2 _ hmem with h | h
+      · split at h
+        · -- x.token = a, head became l: some element of the mapped tail has token l.token; it is l itself,
+          -- which needs an element of r with token a = x.token
+          rename_i hxa
+          have hxa' : x.token = a := by simpa using hxa
+          simp only [hxa, if_true] at hmem
+          rw [List.mem_map] at hmem
+          obtain ⟨y, hy, hyt⟩ := hmem
+          rw [List.mem_map] at hy
+          obtain ⟨z, hz, rfl⟩ := hy
+          split at hyt
+          · rename_i hza
+            have : z.token = x.token := by rw [hxa']; simpa using hza
+            exact hnd.1 (by rw [← this]; exact List.mem_map_of_mem hz)
+          · exact hb.2 (by rw [← hyt]; exact List.mem_map_of_mem hz)
+        · exact hb.1 h.symm
+      · split at h
+        · exact hb.2 h
+        · exact hnd.1 h
+    · intro k hk
+      simp only [List.map_cons, List.mem_cons] at hk
+      rcases hk with hk | hk
+      · split at hk
+        · left; exact hk
+        · right; simp [hk]
+      · rcases ih2 k hk with h | h
+        · left; exact h
+        · right; simp [h]
+
+theorem nodup_filter_map {α : Type} (p : α → Bool) (g : α → Nat) (l : List α) (h : (l.map g).Nodup) :
+    ((l.filter p).map g).Nodup := by
+  induction l with
+  | nil => simp
+  | cons x t ih =>
+    simp only [List.map_cons, List.nodup_cons] at h
+    simp only [List.filter_cons]
+    split
+    · simp only [List.map_cons, List.nodup_cons]
+      refine ⟨?_, ih h.2⟩
+      intro hm
+      rw [List.mem_map] at hm
+      obtain ⟨y, hy, hyx⟩ := hm
+      exact h.1 (by rw [← hyx]; exact List.mem_map_of_mem (List.mem_filter.mp hy).1)
+    · exact ih h.2
+
+theorem nodup_removeEntry {pit : List Entry} (tok : Nat) (h : (pit.map (·.token)).Nodup) :
+    ((removeEntry pit tok).map (·.token)).Nodup := by
+  unfold removeEntry
+  split
+  · exact h
+  · split
+    · exact h
+    · rename_i l hl
+      split
+      · exact nodup_filter_map _ _ _ h
+      · have h1 := nodup_filter_map (fun x => x.token != l.token) (·.token) pit h
+        have h2 : l.token ∉ (pit.filter fun x => x.token != l.token).map (·.token) := by
+          intro hm
+          rw [List.mem_map] at hm
+          obtain ⟨y, hy, hyt⟩ := hm
+          have := (List.mem_filter.mp hy).2
+          simp [hyt] at this
+        exact (nodup_map_token_swap _ l tok h1 h2).1
+
+theorem wf_remove {s s' : St} (h : WF s) (tok : Nat) (hp : s'.pit = removeEntry s.pit tok) (hn : s'.nextTok = s.nextTok) :
+    WF s' := by
+  constructor
+  · intro e he; rw [hp] at he; rw [hn]; exact h.tokLt e (mem_removeEntry he)
+  · rw [hp]; exact nodup_removeEntry tok h.tokNodup
+  · intro e he; rw [hp] at he; exact h.inNodup e (mem_removeEntry he)
+
+theorem eq_of_token_eq {pit : List Entry} (hnd : (pit.map (·.token)).Nodup) {a b : Entry} (ha : a ∈ pit) (hb : b ∈ pit)
+    (ht : a.token = b.token) : a = b := by
+  induction pit with
+  | nil => simp at ha
+  | cons x t ih =>
+    simp only [List.map_cons, List.nodup_cons] at hnd
+    simp only [List.mem_cons] at ha hb
+    rcases ha with rfl | ha <;> rcases hb with rfl | hb
+    · rfl
+    · exact absurd (by rw [ht]; exact List.mem_map_of_mem hb) hnd.1
+    · exact absurd (by rw [← ht]; exact List.mem_map_of_mem ha) hnd.1
+    · exact ih hnd.2 ha hb
+
+/-! #### preservation by every operation -/
+
+theorem wf_expireOne {s : St} (h : WF s) (e : Entry) : WF (expireOne s e) :=
+  wf_remove (wf_frame h (dnlInsertAll_pit s _) (dnlInsertAll_nextTok s _)) e.token rfl rfl
+
+theorem wf_foldl_expireOne (l : List Entry) {s : St} (h : WF s) : WF (l.foldl expireOne s) := by
+  induction l generalizing s with
+  | nil => exact h
+  | cons e t ih => exact ih (wf_expireOne h e)
+
+theorem wf_pitUpdate {s : St} (h : WF s) : WF (pitUpdate s) :=
+  wf_frame (wf_foldl_expireOne _ h) rfl rfl
+
+theorem wf_dnlTick {s : St} (h : WF s) : WF (dnlTick s) := wf_frame h rfl rfl
+
+theorem wf_advTo (fuel : Nat) (target : Time) {s : St} (h : WF s) : WF (advTo fuel target s) := by
+  induction fuel generalizing s with
+  | zero => exact wf_frame h rfl rfl
+  | succ n ih =>
+    unfold advTo
+    dsimp only
+    split
+    · exact wf_frame h rfl rfl
+    · have h0 : WF { s with now := max s.now (min s.nextUpd s.nextDnl) } := wf_frame h rfl rfl
+      split
+      · apply ih
+        split
+        · exact wf_dnlTick (wf_pitUpdate h0)
+        · exact wf_frame (wf_dnlTick (wf_pitUpdate h0)) rfl rfl
+      · split
+        · exact ih (wf_pitUpdate h0)
+        · exact ih (wf_dnlTick h0)
+
+theorem wf_onData {s : St} (h : WF s) (f : FaceId) (d : Data) : WF (onData s f d).1 := by
+  unfold onData
+  split
+  · exact h
+  · split
+    · exact h
+    · dsimp only
+      have h0 : WF (if s.csAdmit = true then csInsert s d else s) := by
+        split
+        · exact wf_frame h (csInsert_pit s d) (csInsert_nextTok s d)
+        · exact h
+      generalize (if s.csAdmit = true then csInsert s d else s) = s0 at h0
+      split
+      · exact h0
+      · rename_i e hm
+        apply wf_frame (s := { s0 with pit := modifyEntry s0.pit e.token (Entry.clearRecs s0.now) }) _ (by simp) (by simp)
+        refine wf_modify h0 e.token _ rfl (Nat.le_refl _) ?_ ?_
+        · intro _; rfl
+        · intro _ _ _; simp [Entry.clearRecs]
+      · rename_i e0 rest hm
+        apply wf_frame (s := { s0 with pit := s0.pit.map fun e =>
+            if ((matchData s0.pit d).map (·.token)).contains e.token then e.clearRecs s0.now else e }) _
+          (by simp [hm]) (by simp)
+        apply wf_map' h0
+        · intro e; split <;> rfl
+        · intro e he; split
+          · simp [Entry.clearRecs]
+          · exact h0.inNodup e he
+
+theorem wf_outInterest {s : St} (h : WF s) (tok i nonce hop g inFace) : WF (outInterest s tok i nonce hop g inFace).1 := by
+  unfold outInterest
+  split
+  · refine wf_modify h tok _ rfl (Nat.le_refl _) ?_ ?_
+    · intro _; rfl
+    · intro e he _; exact h.inNodup e he
+  · exact h
+
+theorem wf_bestRoute {s : St} (h : WF s) (tok i nonce hop inFace) (l : List (FaceId × Nat)) :
+    WF (bestRoute s tok i nonce hop inFace l).1 := by
+  induction l with
+  | nil => exact h
+  | cons nh t ih =>
+    unfold bestRoute
+    split
+    · exact wf_outInterest h ..
+    · exact ih
+
+theorem wf_multicast {s : St} (h : WF s) (tok i nonce hop inFace) (l : List (FaceId × Nat)) :
+    WF (multicast s tok i nonce hop inFace l).1 := by
+  induction l generalizing s with
+  | nil => exact h
+  | cons nh t ih =>
+    simp only [multicast]
+    exact ih (wf_outInterest h ..)
+
+theorem wf_forwardInterest {s : St} (h : WF s) (tok i nonce hop inFace tie) :
+    WF (forwardInterest s tok i nonce hop inFace tie).1 := by
+  unfold forwardInterest
+  have h1 : WF { s with pit := modifyEntry s.pit tok (Entry.updateExp s.now) } := by
+    refine wf_modify h tok _ rfl (Nat.le_refl _) ?_ ?_
+    · intro _; rfl
+    · intro e he _; exact h.inNodup e he
+  dsimp only
+  split
+  · exact wf_outInterest h1 ..
+  · split
+    · exact h1
+    · split
+      · exact h1
+      · split
+        · exact h1
+        · split
+          · exact wf_bestRoute h1 ..
+          · exact wf_multicast h1 ..
+
+theorem wf_insertInterest {s : St} (h : WF s) (i : Interest) (hint : Option Name) (f : FaceId) (nonce : Nat) :
+    WF (insertInterest s i hint f nonce).1 := by
+  unfold insertInterest
+  split
+  · exact h
+  · constructor
+    · intro e he
+      simp only [List.mem_append, List.mem_singleton] at he
+      rcases he with he | rfl
+      · exact Nat.lt_succ_of_lt (h.tokLt e he)
+      · exact Nat.lt_succ_self _
+    · simp only [List.map_append, List.map_cons, List.map_nil]
+      rw [List.nodup_append]
+      refine ⟨h.tokNodup, by simp, ?_⟩
+      intro a ha b hb
+      simp only [List.mem_singleton] at hb
+      subst hb
+      rw [List.mem_map] at ha
+      obtain ⟨x, hx, rfl⟩ := ha
+      exact Nat.ne_of_lt (h.tokLt x hx)
+    · intro e he
+      simp only [List.mem_append, List.mem_singleton] at he
+      rcases he with he | rfl
+      · exact h.inNodup e he
+      · simp
+
+theorem nodup_map_replace (l : List InRec) (f : FaceId) (r' : InRec) (hr : r'.face = f)
+    (h : (l.map (·.face)).Nodup) : ((l.map fun x => if x.face == f then r' else x).map (·.face)).Nodup := by
+  have : (l.map fun x => if x.face == f then r' else x).map (·.face) = l.map (·.face) := by
+    rw [List.map_map]
+    apply List.map_congr_left
+    intro x _
+    simp only [Function.comp]
+    split
+    · rename_i hx; rw [hr]; exact (by simpa using hx : x.face = f).symm
+    · rfl
+  rw [this]; exact h
+
+theorem wf_onInterest {s : St} (h : WF s) (f : FaceId) (i : Interest) (tie : List FaceId) (pick : Nat) :
+    WF (onInterest s f i tie pick).1 := by
+  unfold onInterest
+  split
+  · exact h
+  · split
+    · exact h
+    · split
+      · exact h
+      · split
+        · exact h
+        · rename_i nonce _
+          split
+          · exact h
+          · have h1 := wf_insertInterest h i (fhName s.regions i.hints) f nonce
+            dsimp only
+            generalize insertInterest s i (fhName s.regions i.hints) f nonce = r at h1
+            obtain ⟨s1, tok, dup⟩ := r
+            simp only at h1 ⊢
+            split
+            · exact h1
+            · split
+              · exact h1
+              · rename_i e he
+                have hemem : e ∈ s1.pit := List.mem_of_find?_eq_some he
+                have hetok : e.token = tok := by simpa using List.find?_some he
+                split
+                · rename_i r hr
+                  apply wf_forwardInterest
+                  apply wf_frame (s := { s1 with pit := modifyEntry s1.pit tok fun e =>
+                      { e with inRecs := e.inRecs.map fun x =>
+                          if x.face == f then { r with nonce := nonce, expiry := s1.now + lifetimeNs i } else x } }) _
+                    (by simp) (by simp)
+                  refine wf_modify h1 tok _ rfl (Nat.le_refl _) (fun _ => rfl) ?_
+                  intro e' he' _
+                  have hrf : r.face = f := by simpa using List.find?_some hr
+                  exact nodup_map_replace _ f _ hrf (h1.inNodup e' he')
+                · rename_i hnone
+                  have h2 : WF { s1 with pit := modifyEntry s1.pit tok fun e =>
+                      { e with inRecs := e.inRecs ++ [⟨f, nonce, s1.now + lifetimeNs i, i.tok⟩] } } := by
+                    refine wf_modify h1 tok _ rfl (Nat.le_refl _) (fun _ => rfl) ?_
+                    intro e' he' het
+                    -- tokens are unique, so e' = e, which has no in-record of face f
+                    have : e' = e := by
+                      have hnd := h1.tokNodup
+                      have hp := List.mem_of_find?_eq_some he
+                      exact eq_of_token_eq hnd he' hp (by rw [het, hetok])
+                    subst this
+                    simp only [List.map_append, List.map_cons, List.map_nil]
+                    rw [List.nodup_append]
+                    refine ⟨h1.inNodup _ he', by simp, ?_⟩
+                    intro a ha b hb
+                    simp only [List.mem_singleton] at hb
+                    subst hb
+                    rw [List.mem_map] at ha
+                    obtain ⟨x, hx, rfl⟩ := ha
+                    intro hxf
+                    have := List.find?_eq_none.mp hnone x hx
+                    simp [hxf] at this
+                  split
+                  · refine wf_modify h2 tok _ rfl (Nat.le_refl _) (fun _ => rfl) ?_
+                    intro e' he' _
+                    simp only [Entry.updateExp]
+                    exact nodup_filter_map _ _ _ (h2.inNodup e' he')
+                  · exact wf_forwardInterest h2 ..
+
+theorem wf_step {s : St} (h : WF s) (op : Op) : WF (step s op).1 := by
+  cases op with
+  | adv dt => exact wf_advTo _ _ h
+  | interest f i tie pick => exact wf_onInterest h f i tie pick
+  | data f d => exact wf_onData h f d
+  | _ => exact wf_frame h rfl rfl
+
+/-- every state reachable from a state with an empty PIT, by any history, satisfies the invariant -/
+theorem wf_run (s : St) (hs : s.pit = []) (ops : List Op) : WF (run s ops) := by
+  unfold run
+  have h0 := wf_init s hs
+  generalize s = s0 at h0
+  induction ops generalizing s0 with
+  | nil => exact h0
+  | cons op t ih => simp only [List.foldl_cons]; exact ih _ (wf_step h0 op)
+
 end Ndn.Fw
